@@ -9,24 +9,50 @@ Driver for C15.  One request line = one history:
   `frequency_scale_factor`)
 
 ops (`$k` = the array created / handed out by step `k` of this history, 0-based):
-  `new fc|nac|ds <v> <own 0|1>` · `setfc $k` · `produce` · `setforces <f>` · `setenergies <e>` · `producewith <f>` · `sym <l>` · `symsg` · `cut <r>` ·
-  `setnac $k|-` · `setmasses <m>` · `setds $k|-` · `copy` · `mut $k <v>` · `q freq|gv|fc|nac|masses|ds|disps`
+  `new fc|nac|ds <v> <own 0|1>` · `setfc $k` · `produce` · `producec` (compact) · `generate <k>` · `setforces <f>` · `setenergies <e>` · `producewith <f>` · `sym <l>` · `symsg` · `cut <r>` ·
+  `setnac $k|-` · `setmasses <m>` · `setds $k|-` · `copy` · `mut $k <v>` · `mutfc $k <j>` · `q freq|gv|fc|nac|masses|ds|disps|mesh|band|tp|dos|getmesh|getband|gettp|getdos`
 
 answer: for every step `<out> @ <flag> <digest>` joined by ` | `, where `<flag>` is `D` when the
 step is a caller mutation of an array the object can reach (`MutatesReachable`), else `.`.
 
 The numerical routines are instantiated by a free term encoding (injective on the values used,
 levels and radii < 4), which the harness decodes and evaluates with the real routines:
-  leaf k ↦ 7k · sym l v ↦ 7(4v+l)+1 · symSG v ↦ 7v+2 · cut r v ↦ 7(4v+r)+3 · produce v ↦ 7v+4 ·
+  leaf k ↦ 7k · sym l v ↦ 7(4v+l)+1 · symSG v ↦ 7v+2 · cut r v ↦ 7(4v+r)+3 · produce c v ↦ 7(2v+c)+4 ·
   symNac v ↦ 7v+5 · scale v ↦ 7v+6 ; datasets: leaf k ↦ 7k · setF f v ↦ 7(8v+f)+1 · setE e v ↦ 7(8v+e)+2 ·
   dispOf v ↦ 7v+3 ; a NAC leaf k is Wang iff k is odd.
 -/
+
+/-- a dataset term has forces: pool leaves `k < 100` have, generated ones (`k ≥ 100`) have not -/
+def hasForcesT : Nat → Nat → Bool
+  | 0, _ => false
+  | fuel + 1, t =>
+    match t % 7 with
+    | 0 => t / 7 < 100
+    | 1 => true
+    | 2 => hasForcesT fuel (t / 7 / 8)
+    | _ => false
+
+/-- a force-constant term is in the compact layout: pool leaves `k ≥ 50`, `produce` with the compact flag -/
+def isCompactT : Nat → Nat → Bool
+  | 0, _ => false
+  | fuel + 1, t =>
+    match t % 7 with
+    | 0 => 50 ≤ t / 7
+    | 1 => isCompactT fuel (t / 7 / 4)
+    | 2 => isCompactT fuel (t / 7)
+    | 3 => isCompactT fuel (t / 7 / 4)
+    | 4 => (t / 7) % 2 == 1
+    | 6 => isCompactT fuel (t / 7)
+    | _ => false
 
 def Fterm : Fns :=
   { sym := fun l v => 7 * (4 * v + l % 4) + 1
     symSG := fun v => 7 * v + 2
     cut := fun r v => 7 * (4 * v + r % 4) + 3
-    produce := fun v => 7 * v + 4
+    produce := fun c v => 7 * (2 * v + (if c then 1 else 0)) + 4
+    gen := fun k => 7 * (100 + k)
+    hasForces := fun t => hasForcesT 64 t
+    isCompact := fun t => isCompactT 64 t
     symNac := fun v => 7 * v + 5
     isWang := fun v => v % 7 == 0 && (v / 7) % 2 == 1
     scale := fun v => 7 * v + 6
@@ -44,6 +70,7 @@ def showPh (p : Phonons) : String :=
 
 def showErr : Err → String
   | .noFc => "noFc" | .noMasses => "noMasses" | .noDataset => "noDataset" | .noDM => "noDM" | .badRef => "badRef"
+  | .noMesh => "noMesh" | .noForces => "noForces" | .notFull => "notFull"
 
 def showOut : Out → String
   | .ok => "ok"
@@ -52,6 +79,8 @@ def showOut : Out → String
   | .ref a v => "ref:" ++ so a ++ ":" ++ so v
   | .val v => "val:" ++ so v
   | .phonons r => "ph:" ++ showPh r.ph ++ (match r.gv with | none => "" | some g => "/" ++ showPh g)
+  | .snap none => "snap:-"
+  | .snap (some p) => "snap:" ++ showPh p
   | .copied c => "copied:" ++ so c.masses
 
 /-- the reference carried by an output, if any -/
@@ -79,7 +108,9 @@ def parseOp (toks : List String) (outs : Array Out) : Option (Option Op) :=
     let own ← (match own with | "0" => some false | "1" => some true | _ => none)
     pure (some (.newArr v own kind))
   | ["setfc", h] => do let r ← parseHandle h outs; pure (r.map .setFc)
-  | ["produce"] => some (some .produceFc)
+  | ["produce"] => some (some (.produceFc false))
+  | ["producec"] => some (some (.produceFc true))
+  | ["generate", k] => do let k ← k.toNat?; if k < 8 then pure (some (.generate k)) else none
   | ["setforces", f] => do let f ← f.toNat?; if f < 8 then pure (some (.setForces f)) else none
   | ["setenergies", e] => do let e ← e.toNat?; if e < 8 then pure (some (.setEnergies e)) else none
   | ["producewith", f] => do let f ← f.toNat?; if f < 8 then pure (some (.produceFcWith f)) else none
@@ -100,27 +131,48 @@ def parseOp (toks : List String) (outs : Array Out) : Option (Option Op) :=
   | ["q", "masses"] => some (some (.query .getMasses))
   | ["q", "ds"] => some (some (.query .getDataset))
   | ["q", "disps"] => some (some (.query .getDisps))
+  | ["q", "mesh"] => some (some (.query (.run .mesh)))
+  | ["q", "band"] => some (some (.query (.run .band)))
+  | ["q", "tp"] => some (some (.query (.run .tp)))
+  | ["q", "dos"] => some (some (.query (.run .dos)))
+  | ["q", "getmesh"] => some (some (.query (.get .mesh)))
+  | ["q", "getband"] => some (some (.query (.get .band)))
+  | ["q", "gettp"] => some (some (.query (.get .tp)))
+  | ["q", "getdos"] => some (some (.query (.get .dos)))
   | _ => none
 
 def mutatesReachable (s : St) : Op → Bool
   | .callerMutates a _ => s.o.refs.contains a
   | _ => false
 
+/-- `mutfc $k j`: the caller overwrites a force-constant array with pool entry `j` of the array's own
+layout (a full array cannot be overwritten in place with compact content) -/
+def resolveMutFc (s : St) (toks : List String) (outs : Array Out) : Option (Option Op) :=
+  match toks with
+  | ["mutfc", h, j] => do
+    let r ← parseHandle h outs
+    let j ← j.toNat?
+    pure (r.map fun a => .callerMutates a (if Fterm.isCompact (s.h.cells a) then 7 * (50 + j % 3) else 7 * j))
+  | _ => none
+
 def handle (line : String) : String :=
   let parts := (line.splitOn ";").map fun p => tokens p
   let r : Option String := do
     let head ← parts.head?
+    -- `rungv …`: constructed with `group_velocity_delta_q` (token 1)
+    let gvq : Option Val := (match head with | "rungv" :: _ => some 1 | _ => none)
+    let head := (match head with | "rungv" :: rest => "run" :: rest | h => h)
     let (m, fsf) ← (match head with
       | ["run", "-"] => some ((none : Option Val), false)
       | ["run", m] => m.toNat?.map fun v => (some v, false)
       | ["runfsf", "-"] => some ((none : Option Val), true)
       | ["runfsf", m] => m.toNat?.map fun v => (some v, true)
       | _ => none)
-    let mut s := St.init m fsf
+    let mut s := St.init m fsf gvq
     let mut outs : Array Out := #[]
     let mut answers : Array String := #[]
     for toks in parts.drop 1 do
-      let op? ← parseOp toks outs
+      let op? ← (match toks with | "mutfc" :: _ => resolveMutFc s toks outs | _ => parseOp toks outs)
       match op? with
       | none =>
         outs := outs.push (.err .badRef)
